@@ -122,7 +122,7 @@ Proof.
   - rewrite Hf. reflexivity.
   - eapply forallb_impl; [apply nofs_safe | apply tensors_nofs].
   - unfold plan_tail. rewrite forallb_app. apply andb_true_intro. split.
-    + apply forallb_map_const. reflexivity.
+    + apply forallb_map_const. intros h. unfold rel_act. destruct (existsb (Nat.eqb h) (sc_held sc)); reflexivity.
     + simpl. rewrite forallb_app. apply andb_true_intro. split.
       * destruct (exists_ fs (dest_of fs (sc_req sc))); simpl; [rewrite Hf|]; reflexivity.
       * simpl. rewrite Hf, Hdest. reflexivity.
